@@ -103,6 +103,10 @@ def pin_container_tree_Set_RangeReverse : List String := ["func (r Set[T]) Range
 def pin_container_tree_Set_Remove : List String := ["func (r Set[T]) Remove(p0 T)",
   "r.t.Delete(p0)"]
 
+/-- `Unbounded` in `container/tree`: signature and full statement list, locals renamed positionally -/
+def pin_container_tree_Unbounded : List String := ["func Unbounded[T0 any]() Bound[T0]",
+  "return Bound[T0]{type_: boundUnbounded}"]
+
 /-- `amalgam1.Child` in `container/tree`: signature and full statement list, locals renamed positionally -/
 def pin_container_tree_amalgam1_Child : List String := ["func (r *amalgam1[K, V]) Child(p0 int) *node[K, V]",
   "if p0 == r.extraIdx+1 {",
@@ -131,6 +135,11 @@ def pin_container_tree_backwardIterator_Next : List String := ["func (r *backwar
   "v2 := r.c.valueUnchecked()",
   "r.c.Prev()",
   "return KVPair[K, V]{v1, v2}, true"]
+
+/-- `btree.Cursor` in `container/tree`: signature and full statement list, locals renamed positionally -/
+def pin_container_tree_btree_Cursor : List String := ["func (r *btree[K, V]) Cursor() cursor[K, V]",
+  "v0 := cursor[K, V]{t: r}",
+  "return v0"]
 
 /-- `btree.Delete` in `container/tree`: signature and full statement list, locals renamed positionally -/
 def pin_container_tree_btree_Delete : List String := ["func (r *btree[K, V]) Delete(p0 K)",
@@ -671,6 +680,21 @@ def pin_container_tree_forwardIterator_Next : List String := ["func (r *forwardI
   "r.c.Next()",
   "return KVPair[K, V]{v1, v2}, true"]
 
+/-- `insertOne` in `container/tree`: signature and full statement list, locals renamed positionally -/
+def pin_container_tree_insertOne : List String := ["func insertOne[T0 any](p0 []T0, p1 int, p2 T0)",
+  "copy(p0[p1+1:], p0[p1:])",
+  "p0[p1] = p2"]
+
+/-- `leftmostLeaf` in `container/tree`: signature and full statement list, locals renamed positionally -/
+def pin_container_tree_leftmostLeaf : List String := ["func leftmostLeaf[T0 any, T1 any](p0 *node[T0, T1]) *node[T0, T1]",
+  "v0 := p0",
+  "for {",
+  "if v0.leaf() {",
+  "return v0",
+  "}",
+  "v0 = v0.children[0]",
+  "}"]
+
 /-- `newAmalgam1` in `container/tree`: signature and full statement list, locals renamed positionally -/
 def pin_container_tree_newAmalgam1 : List String := ["func newAmalgam1[T0 any, T1 any](p0 func(T0, T0) int, p1 *[maxKVs]T0, p2 *[maxKVs]T1, p3 *[branchFactor]*node[T0, T1], p4 T0, p5 T1, p6 *node[T0, T1]) amalgam1[T0, T1]",
   "v0 := func() int { }()",
@@ -684,6 +708,10 @@ def pin_container_tree_newAmalgam1 : List String := ["func newAmalgam1[T0 any, T
   "}",
   "return amalgam1[T0, T1]{keys: p1, values: p2, children: p3, extraKey: p4, extraValue: p5, extraChild: p6, extraIdx: v0}"]
 
+/-- `newBtree` in `container/tree`: signature and full statement list, locals renamed positionally -/
+def pin_container_tree_newBtree : List String := ["func newBtree[T0 any, T1 any](p0 func(T0, T0) int) *btree[T0, T1]",
+  "return &btree[T0, T1]{compare: p0, root: &node[T0, T1]{}, size: 0}"]
+
 /-- `node.full` in `container/tree`: signature and full statement list, locals renamed positionally -/
 def pin_container_tree_node_full : List String := ["func (r *node[K, V]) full() bool",
   "return int(r.n) == len(r.keys)"]
@@ -693,6 +721,16 @@ def pin_container_tree_removeOne : List String := ["func removeOne[T0 any](p0 []
   "copy(p0[p1:], p0[p1+1:])",
   "var v0 T0",
   "p0[len(p0)-1] = v0"]
+
+/-- `rightmostLeaf` in `container/tree`: signature and full statement list, locals renamed positionally -/
+def pin_container_tree_rightmostLeaf : List String := ["func rightmostLeaf[T0 any, T1 any](p0 *node[T0, T1]) *node[T0, T1]",
+  "v0 := p0",
+  "for {",
+  "if v0.leaf() {",
+  "return v0",
+  "}",
+  "v0 = v0.children[int(v0.n)]",
+  "}"]
 
 /-- `whileIterator.Next` in `iterator`: signature and full statement list, locals renamed positionally -/
 def pin_iterator_whileIterator_Next : List String := ["func (r *whileIterator[T]) Next() (T, bool)",
